@@ -64,6 +64,9 @@ def main():
         except Exception:
             meta = {}
     wt = "/tmp/sv-%d" % os.getpid()
+    tmpd = wt + "-tmp"
+    os.makedirs(tmpd, exist_ok=True)
+    ENV["TMPDIR"] = tmpd  # the pinned suite uses fixed directory names under os.TempDir(): keep concurrent verifications apart
     res = {"dir": d, "property": prop}
     sh("git -C /repo worktree add -q %s HEAD" % wt)
     try:
@@ -103,6 +106,7 @@ def main():
                 res["check_tail"] = p.stdout[-800:]
     finally:
         sh("git -C /repo worktree remove --force %s" % wt)
+        shutil.rmtree(tmpd, ignore_errors=True)
     print(json.dumps(res))
     return 0
 
